@@ -309,35 +309,64 @@ type Pool struct {
 	items []any
 }
 
+// OnPoolGet, when set, is called with every value a Pool hands out (harness
+// hook: poisoning of recycled blocks, bookkeeping). SeqChooser is consulted for
+// PoolChoice outside a controlled execution (sequential history exploration).
+var OnPoolGet func(x any, fresh bool)
+var SeqChooser Chooser
+
 func (p *Pool) Get() any {
 	point(op{kind: opPoolGet})
+	x, fresh := p.get()
+	if OnPoolGet != nil {
+		OnPoolGet(x, fresh)
+	}
+	point(op{kind: opYield, tag: "after Pool.Get"})
+	return x
+}
+
+func (p *Pool) get() (any, bool) {
 	n := len(p.items)
 	if n > 0 {
 		k := n - 1
-		if PoolChoice && cur != nil {
-			c := cur.ch.ChooseCost(n+1, nil)
-			if c == n {
-				if p.New != nil {
-					return p.New()
-				}
-				return nil
+		if PoolChoice {
+			var ch Chooser
+			if cur != nil {
+				ch = cur.ch
+			} else {
+				ch = SeqChooser
 			}
-			k = c
+			if ch != nil {
+				c := ch.ChooseCost(n+1, nil)
+				if c == n {
+					if p.New != nil {
+						return p.New(), true
+					}
+					return nil, true
+				}
+				k = c
+			}
 		}
 		x := p.items[k]
 		p.items = append(p.items[:k], p.items[k+1:]...)
-		return x
+		return x, false
 	}
 	if p.New != nil {
-		return p.New()
+		return p.New(), true
 	}
-	return nil
+	return nil, true
 }
 
 func (p *Pool) Put(x any) {
 	point(op{kind: opPoolPut})
 	p.items = append(p.items, x)
+	// a second point after the operation: code that touches the value after
+	// handing it back (use after Put) must be interleavable with other threads
+	point(op{kind: opYield, tag: "after Pool.Put"})
 }
 
 // Reset empties the pool (between executions).
 func (p *Pool) Reset() { p.items = nil }
+
+// Len returns the number of pooled items.
+func (p *Pool) Len() int { return len(p.items) }
